@@ -155,10 +155,15 @@ func checkC10(c *Ctx, r *Report) {
 	}
 
 	// R10c: normalization produces fresh values
-	r.Rule("R10c", "normalizeValue / normalizeArray / normalize*Value return fresh values that contain no reference into the Go value they were built from, and do not modify it", 4)
+	r.Rule("R10c", "normalizeValue / normalizeArray / normalize*Value return fresh values that contain no reference into the Go value they were built from, and do not modify it", 2)
+	// normalizeValue and normalizeArray are the anchors (their summaries cover what they call); the per-kind helpers
+	// are checked on their own while they exist (they may be folded into normalizeValue)
 	for _, n := range []string{"normalizeValue", "normalizeArray", "normalizeMapValue", "normalizeStructValue", "normalizeString"} {
 		fn := c.TryFunc("", n)
 		if fn == nil {
+			if n == "normalizeValue" || n == "normalizeArray" {
+				fn = c.Func("", n) // ANCHOR-MISSING
+			}
 			continue
 		}
 		s := e.Summary(fn)
